@@ -128,6 +128,20 @@ def lru_assembly(ctx, rr):
     # windup walks the parents of the node it was given and starts from that node's own stem
     w = P.method('LRUTrie', 'windup_lru')
     ok = any(isinstance(f.iter, ast.Call) and any(t.name == 'node_parents_iter' for t in P.targets(f.iter)) for f in P.own(w, ast.For))
+    inplace = [lp_ for lp_ in P.own(w, ast.While) if any(isinstance(c, ast.Call) and isinstance(c.func, ast.Attribute) and c.func.attr == 'read_parent' for c in ast.walk(lp_))]
+    if not ok and inplace and any(isinstance(c, ast.Call) and isinstance(c.func, ast.Attribute) and c.func.attr == 'parent_node' for c in P.own(w, ast.Call)):
+        ok = True           # the same climb written in place; its exits are checked below like those of node_parents_iter
+    # stems collected bottom-up in a list are put in top-down order before they are joined
+    for L_ in {c.func.value.id for c in P.own(w, ast.Call) if isinstance(c.func, ast.Attribute) and c.func.attr == 'append' and isinstance(c.func.value, ast.Name)
+               and c.args and ast.unparse(c.args[0]).endswith('.stem()')}:
+        n += 1
+        rev = any(isinstance(c, ast.Call) and ((isinstance(c.func, ast.Attribute) and c.func.attr == 'reverse' and ast.unparse(c.func.value) == L_)
+                                               or (isinstance(c.func, ast.Name) and c.func.id == 'reversed' and c.args and ast.unparse(c.args[0]) == L_)) for c in P.own(w, ast.Call)) \
+            or any(isinstance(x, ast.Subscript) and ast.unparse(x) == '%s[::-1]' % L_ for x in ast.walk(w.node))
+        rr.ob(ctx.where(w), 'windup_lru reverses the stems it collected bottom-up before joining them', ok=rev)
+        if not rev:
+            rr.fail(ctx.finding('R-LRU-ASSEMBLY', w, w.node, 'windup_lru joins the stems in the order it climbed (`%s` is never reversed): the LRU read back is the stored LRU backwards' % L_,
+                                stmt='windup list order'))
     rr.ob(ctx.where(w), 'windup_lru follows node_parents_iter', ok=ok)
     if not ok:
         rr.fail(ctx.finding('R-LRU-ASSEMBLY', w, w.node, 'windup_lru no longer walks the parent chain', stmt='windup parents'))
@@ -146,7 +160,7 @@ def lru_assembly(ctx, rr):
         rr.fail(ctx.finding('R-LRU-ASSEMBLY', npi, npi.node, 'node_parents_iter does not yield exactly the chain of parents', detail={'row': r.show()[:300]}, stmt='parents chain'))
     # the climb ends at a node without parent and nowhere else: every yield-free exit of the loop is decided by has_parent() alone
     from ..dataflow import test_leaves as _leaves
-    for lp_ in P.own(npi, (ast.While, ast.For)):
+    for cu_, lp_ in [(npi, x) for x in P.own(npi, (ast.While, ast.For))] + [(w, x) for x in inplace]:
         extra = []
         if isinstance(lp_, ast.While):
             extra = [x for x in _leaves(lp_.test) if not (isinstance(x, ast.Call) and isinstance(x.func, ast.Attribute) and x.func.attr == 'has_parent')
@@ -154,7 +168,7 @@ def lru_assembly(ctx, rr):
         exits = []
         for st_ in lp_.body:
             for x in ast.walk(st_):
-                if isinstance(x, (ast.Break, ast.Return)) and P.owner_of(npi.node, x) is npi.node:
+                if isinstance(x, (ast.Break, ast.Return)) and P.owner_of(cu_.node, x) is cu_.node:
                     cur_ = P.parent.get(id(x))
                     tests_ = []
                     while cur_ is not None and cur_ is not lp_:
@@ -164,10 +178,10 @@ def lru_assembly(ctx, rr):
                     if any(not (isinstance(t_, ast.Call) and isinstance(t_.func, ast.Attribute) and t_.func.attr == 'has_parent') for t_ in tests_) or not tests_:
                         exits.append(x)
         okc = not extra and not exits
-        rr.ob(ctx.where(npi, lp_), 'the climb of node_parents_iter stops only where has_parent() is false', ok=okc)
+        rr.ob(ctx.where(cu_, lp_), 'the climb of node_parents_iter stops only where has_parent() is false', ok=okc)
         if not okc:
             what = ast.unparse(extra[0])[:40] if extra else ast.unparse(P.parent.get(id(exits[0])).test)[:40] if isinstance(P.parent.get(id(exits[0])), ast.If) else 'an unconditional exit'
-            rr.fail(ctx.finding('R-LRU-ASSEMBLY', npi, extra[0] if extra else exits[0], 'node_parents_iter can stop climbing because of `%s` although the node still has a parent: the LRU '
+            rr.fail(ctx.finding('R-LRU-ASSEMBLY', cu_, extra[0] if extra else exits[0], 'node_parents_iter can stop climbing because of `%s` although the node still has a parent: the LRU '
                                 'rebuilt bottom-up is cut short and the webentity above is not found for deep nodes' % what, stmt='parents chain bound'))
     # upward webentity resolution starts at the node itself
     ww = P.method('LRUTrie', 'windup_lru_for_webentity')
@@ -331,6 +345,26 @@ def link_walk(ctx, rr):
                       ('weighted_link_nodes_iter', lambda e: e.kind in ('store', 'aug') and '.target()' in (e.text or '')),
                       ('deduped_link_nodes_iter', lambda e: e.kind == 'call' and e.name == 'target')):
         u = P.method('LinkStore', name)
+        # a walk may delegate to another walk of the store (itself checked here): then every stub handed out is accounted for once
+        deleg = [f_ for f_ in P.own(u, ast.For) if isinstance(f_.iter, ast.Call) and any(t.cls == 'LinkStore' and t.name in ('link_nodes_iter',) and t is not u for t in P.targets(f_.iter))]
+        own_moves = [c for c in P.own(u, ast.Call) if isinstance(c.func, ast.Attribute) and c.func.attr in ('read_previous', 'has_previous')]
+        if name != 'link_nodes_iter' and len(deleg) == 1 and not own_moves:
+            from .generic_rules import round_must_pass as _rmpw
+            f_ = deleg[0]
+            arg_ok = len(f_.iter.args) == 1 and isinstance(f_.iter.args[0], ast.Name) and f_.iter.args[0].id in u.call_params
+            lv_ = f_.target.id if isinstance(f_.target, ast.Name) else None
+
+            def accounts(root):
+                return any(isinstance(c, ast.Call) and isinstance(c.func, ast.Attribute) and c.func.attr == 'target' and isinstance(c.func.value, ast.Name) and c.func.value.id == lv_
+                           for c in ast.walk(root))
+            skipped = _rmpw(ctx, u, f_, accounts)
+            brk_ = any(isinstance(x, (ast.Break, ast.Return)) for b_ in f_.body for x in ast.walk(b_))
+            okd = arg_ok and lv_ is not None and skipped is None and not brk_
+            rr.ob(ctx.where(u), '%s: walks the list through link_nodes_iter and accounts for every stub it hands out' % name, ok=okd)
+            if not okd:
+                rr.fail(ctx.finding('R-LINK-WALK', u, f_, '%s: delegates the walk to link_nodes_iter but %s: links are lost or counted wrongly' % (
+                    name, 'does not start it at the head it was given' if not arg_ok else 'does not account for every stub handed out'), stmt=name + ' walk'))
+            continue
         rows = tables(ctx, u, iters=2, keep=lambda n_, c: n_ in ('read_previous', 'target', 'has_previous'))
         bad = []
         nwalk = 0
@@ -703,16 +737,18 @@ def storage_sem(ctx, rr):
     ms = P.require_class('MemoryStorage')
     r = P.method('MemoryStorage', 'read')
     w = P.method('MemoryStorage', 'write')
-    bp_r = r.call_params[0]
+    from .storage_iface import position_var as _posvar0
+    bp_r = _posvar0(ctx, r)[0]
     from ..dataflow import rtext
-    slices = [rtext(P, r, x.slice) for x in ast.walk(r.node) if isinstance(x, ast.Subscript) and isinstance(x.slice, ast.Slice) and ast.unparse(x.value) == 'self.array']
+    slices = [rtext(P, r, x.slice, keep=(bp_r,)) for x in ast.walk(r.node) if isinstance(x, ast.Subscript) and isinstance(x.slice, ast.Slice) and ast.unparse(x.value) == 'self.array']
     ok = bool(slices) and all(s == '%s:%s+self.block_size' % (bp_r, bp_r) for s in slices)
     rr.ob(ctx.where(r), 'MemoryStorage.read returns bytes [block, block + block_size)', ok=ok)
     if not ok:
         rr.fail(ctx.finding('R-STORAGE-SEM', r, r.node, 'MemoryStorage.read slices %s instead of [block : block + block_size]' % slices, stmt='memory read slice'))
     mm = P.method('MemMapStorage', 'read')
-    bp_m = mm.call_params[0]
-    slices = [rtext(P, mm, x.slice) for x in ast.walk(mm.node) if isinstance(x, ast.Subscript) and isinstance(x.slice, ast.Slice)]
+    from .storage_iface import position_var as _posvar
+    bp_m = _posvar(ctx, mm)[0]
+    slices = [rtext(P, mm, x.slice, keep=(bp_m,)) for x in ast.walk(mm.node) if isinstance(x, ast.Subscript) and isinstance(x.slice, ast.Slice)]
     ok = bool(slices) and all(s == '%s:%s+self.block_size' % (bp_m, bp_m) for s in slices)
     rr.ob(ctx.where(mm), 'MemMapStorage.read returns bytes [block, block + block_size)', ok=ok)
     if not ok:
